@@ -81,7 +81,7 @@ theorem nothing_served_after_closing_exchange (k j : Nat) (s' : St) (it : Item)
 
 /-! Non-vacuity (tests). -/
 example : at? false 0 {} 0 [.x false .pass .pass .fail, .x false .pass .pass (.trunc 200),
-    .x false .pass .pass (.ok 200 false)] 1 = some ({}, .x false .pass .pass (.trunc 200)) := by decide
+    .x false .pass .pass (.ok 200 false)] 1 = some ({ stored := 1 }, .x false .pass .pass (.trunc 200)) := by decide
 example : countP (isRead 2) (runConn false 0 [.x false .pass .pass .fail, .x false .pass .pass (.trunc 200),
     .x false .pass .pass (.ok 200 false)]) = 0 := by decide
 
